@@ -4,8 +4,8 @@
    - deserialising / converting preserves the structure, strings and keys, and every number
      keeps denoting the same integer (when it is a 64-bit integer) or else the same double;
    - the serde_json detour may also reorder object entries (sorted by key).
-   Also the classes of inputs on which the pinned tree is known to deviate (K1..K6) as
-   boolean predicates.  Executable; no proofs. *)
+   Also the classes of inputs on which the tree is known to deviate (K3, K4) as boolean
+   predicates.  Executable; no proofs. *)
 From Coq Require Import SpecFloat.
 From JsonSyntax Require Import Base.Prelude Base.Value Base.Float64 Model.Compare
   Spec.NumSpelling Spec.SerdeData Spec.SerdeJsonValue.
@@ -162,15 +162,6 @@ Definition wf_nums (v : value) : bool := all_nums valid_number v.
 Definition nums64 (v : value) : bool := all_nums num64 v.
 
 (* ---------------------------------------------------------------- known classes *)
-(* K1: integer syntax (no '.') that is not a 64-bit integer; includes every
-   exponent-without-fraction spelling *)
-Definition K1num (n : list N) : bool := negb (has_decimal_point n) && negb (is_int64 n).
-Definition K1 (v : value) : bool := some_num K1num v.
-
-(* K2: not a 64-bit integer and more than 19 significant digits *)
-Definition K2num (n : list N) : bool := negb (is_int64 n) && (19 <? sig_digits n)%nat.
-Definition K2 (v : value) : bool := some_num K2num v.
-
 (* K3: not a 64-bit integer and the nearest double is infinite *)
 Definition K3num (n : list N) : bool := negb (is_int64 n) && negb (sf_is_finite (dbl n)).
 Definition K3 (v : value) : bool := some_num K3num v.
@@ -186,23 +177,6 @@ Fixpoint K4 (v : value) : bool :=
       end || existsb (fun e : list N * value => K4 (snd e)) es
   | _ => false
   end.
-
-(* K5: not a 64-bit integer and outside the range where serde_json's default float parser
-   is a single correctly rounded operation *)
-Definition K5num (n : list N) : bool := negb (is_int64 n) && negb (sj_exact n).
-Definition K5 (v : value) : bool := some_num K5num v.
-
-(* K6 (serde_json values): a float whose printed spelling is in K5 *)
-Section K6.
-  Variable fmt_ryu : spec_float -> list N.
-  Fixpoint K6 (j : sj) : bool :=
-    match j with
-    | JNum (SFloat x) => negb (sj_exact (fmt_ryu x))
-    | JArr l => existsb K6 l
-    | JObj es => existsb (fun e : list N * sj => K6 (snd e)) es
-    | _ => false
-    end.
-End K6.
 
 Fixpoint sj_eqb (a b : sj) : bool :=
   match a, b with
